@@ -34,6 +34,18 @@ OG = ConstOperands()
 FLOATY = {"mean", "true_divide", "det", "isclose", "allclose"}
 
 
+EDGE = {
+    "bool": [True, False],
+    "int8": [-128, 127, 5, -7, 0],
+    "uint8": [255, 7, 0, 100],
+    "int32": [2 ** 31 - 1, -2 ** 31, 1000003, -17, 0],
+    "int64": [2 ** 62 + 1, -2 ** 62 - 3, 7, -5, 0, 3 ** 35],
+    "uint64": [2 ** 63 + 1, 2 ** 64 - 1, 12345678901234567, 3, 0],
+    "float64": [1.5, -2.75, 0.0, 1e300, 3.0],
+    "complex128": [[1, 2], [0, -0.5], [3, 0], [0, 0]],
+}
+
+
 def names_for(tier):
     return sorted(n for n in RECIPES if n not in SKIP)
 
@@ -58,6 +70,28 @@ def case_st(draw, only=None):
             num = pog.array(draw, shape=shape, names=["q0"])
         return {"fn": fn, "args": [P(num), P(den)], "kw": {}, "expect": "FeatureNotSupported",
                 "spelling": draw(st.sampled_from(["numpoly", "numpy"]))}
+    if only == "division-dtypes" or (only is None and draw(st.integers(0, 14)) == 0):
+        # the numeric division functions between every pair of coefficient dtypes, values at the dtypes' edges
+        fn = draw(st.sampled_from(["true_divide", "floor_divide", "remainder", "divmod"]))
+        d1 = draw(st.sampled_from(sorted(EDGE)))
+        d2 = draw(st.sampled_from(sorted(EDGE)))
+        n = draw(st.sampled_from([1, 3, 4]))
+        shape2 = draw(st.sampled_from([[n], [], [n]]))
+
+        def arr(d, shape, divisor):
+            size = gen.size_of(tuple(shape))
+            pool = [v for v in EDGE[d] if not divisor or v not in (0, False, [0, 0])]
+            vals = draw(st.lists(st.sampled_from(pool), min_size=size, max_size=size))
+            out = {"dtype": d, "shape": list(shape)}
+            if d.startswith("complex"):
+                out["v"], out["vi"] = [v[0] for v in vals], [v[1] for v in vals]
+            else:
+                out["v"] = vals
+            return {"$np": out}
+
+        return {"fn": fn, "args": [arr(d1, [n], False), arr(d2, shape2, True)], "kw": {}, "dtype_pair": [d1, d2],
+                "divisor": draw(st.sampled_from(["array", "poly", "scalar"])),
+                "spelling": draw(st.sampled_from(["numpoly", "numpy"]))}
     fn = only or draw(st.sampled_from(names_for("quick")))
     call = RECIPES[fn].gen(draw, OG)
     call["fn"] = fn
@@ -69,8 +103,32 @@ def strategy(tier):
     return case_st()
 
 
+def _np(d, vals, shape):
+    out = {"dtype": d, "shape": list(shape)}
+    if d.startswith("complex"):
+        out["v"], out["vi"] = [v[0] for v in vals], [v[1] for v in vals]
+    else:
+        out["v"] = list(vals)
+    return {"$np": out}
+
+
+def enumerate_cases(tier):
+    """Every (division function, dividend dtype, divisor dtype, divisor form) with the dtypes' edge values."""
+    for fn in ("true_divide", "floor_divide", "remainder", "divmod"):
+        for d1 in sorted(EDGE):
+            a = EDGE[d1]
+            for d2 in sorted(EDGE):
+                nz = [v for v in EDGE[d2] if v not in (0, False, [0, 0])]
+                b = [nz[i % len(nz)] for i in range(len(a))]
+                for form in ("array", "poly", "scalar"):
+                    scalars = nz if tier != "quick" else nz[:1]
+                    for bs in ([b] if form != "scalar" else [[v] for v in scalars]):
+                        yield {"fn": fn, "args": [_np(d1, a, [len(a)]), _np(d2, bs, [len(bs)] if form != "scalar" else [])],
+                               "kw": {}, "dtype_pair": [d1, d2], "divisor": form, "spelling": "numpoly"}
+
+
 def STRATA(tier):
-    return names_for(tier) + ["non-constant-divisor", "non-constant-divisor"]
+    return names_for(tier) + ["non-constant-divisor", "non-constant-divisor"] + ["division-dtypes"] * 4
 
 
 def strategy_for(tier, name):
@@ -119,6 +177,9 @@ def same(got, exp, fn, numpoly, path="result"):
         return "shape", "%s: shape %s vs numpy %s" % (path, got_arr.shape, exp_arr.shape)
     if fn in FLOATY:
         ok = numpy.allclose(got_arr, exp_arr, rtol=1e-12, atol=1e-12)
+    elif exp_arr.dtype.kind in "iu" and got_arr.dtype.kind in "iuf":
+        # exact, also beyond 2**53 (numpy would compare a float result with the integers in floating point)
+        ok = got_arr.ravel().tolist() == exp_arr.ravel().tolist()
     else:
         ok = numpy.array_equal(got_arr, exp_arr)
     if not ok:
@@ -149,6 +210,18 @@ def check_case(case, ctx):
     kw = resolve(case["kw"], "live")
     rargs = resolve(case["args"], "raw")
     rkw = resolve(case["kw"], "raw")
+    if case.get("dtype_pair"):
+        # (the operands are given as plain arrays: the dividend becomes a constant polynomial, the divisor
+        # a constant polynomial, an array, or - when it has one element - a numpy scalar of its dtype)
+        args = [numpoly.polynomial(rargs[0]), rargs[1]]
+        if case["divisor"] == "poly":
+            args[1] = numpoly.polynomial(rargs[1])
+        elif case["divisor"] == "scalar" and rargs[1].ndim == 0:
+            args[1] = rargs[1][()]
+            rargs = [rargs[0], rargs[1][()]]
+        if args[0].dtype != rargs[0].dtype:
+            ctx.discard_case("constant-polynomial-changes-dtype")
+            return []
     if fn in ("apply_along_axis", "apply_over_axes"):
         # the callable is spelled per module: numpy's on the raw arrays, numpoly's on the polynomials
         from ..catalogue import _callable
@@ -163,6 +236,11 @@ def check_case(case, ctx):
         return []
 
     def cls():
+        if case.get("dtype_pair"):
+            k1, k2 = (numpy.dtype(d).kind for d in case["dtype_pair"])
+            big = any(abs(v) > 2 ** 53 for a in rargs[:2] for v in numpy.atleast_1d(a).ravel().tolist()
+                      if isinstance(v, int) and not isinstance(v, bool))
+            return "dtypes:%s/%s%s" % (k1, k2, ",>2**53" if big else "")
         if fn in ("amax", "amin"):
             return "axis" if kw.get("axis") is not None else "no-axis"
         if fn in ("argmax", "argmin"):
@@ -198,6 +276,10 @@ def check_case(case, ctx):
             return [Failure("repeat:shape:axis-omitted", r[1])]
         return [Failure("%s:%s:%s" % (fn, r[0], cls()), r[1])]
     ctx.label("fn:" + fn)
+    if case.get("dtype_pair"):
+        ctx.label("division-dtypes:%s" % ("mixed-kinds" if numpy.dtype(case["dtype_pair"][0]).kind != numpy.dtype(case["dtype_pair"][1]).kind else "same-kind"))
+        ctx.nontrivial(case["dtype_pair"][0] != case["dtype_pair"][1])
+        return fails
     arr = numpy.asarray(rargs[0]) if not isinstance(rargs[0], (list, tuple)) or not rargs[0] else numpy.asarray(rargs[0][0])
     nt = False
     if arr.dtype.kind in "if" and arr.size >= 2:
